@@ -146,6 +146,12 @@ def ops():
     add('spsolve k=2', lambda M, A: M.spsolve(M.spd(A.shape[0]), A.tolil()[:, M.ints([0, 1])]))
     add('spsolve k=2 reshape sum1', lambda M, A: M.spsolve(M.spd(A.shape[0]), A.tolil()[:, M.ints([0, 1])]).reshape(A.shape[0], 2).sum(axis=1))
     add('compressed ctor', lambda M, A: M.csr_matrix((A.tocsr().data, A.tocsr().indices, A.tocsr().indptr), shape=A.shape))
+    add('identity(csc) - A.tocsc()', lambda M, A: M.identity(A.shape[0], format='csc') - A.tocsc())
+    add('identity default', lambda M, A: M.identity(A.shape[0]))
+    add('eye csr', lambda M, A: M.eye(A.shape[0], format='csr') + A)
+    add('diags(v) * A', lambda M, A: M.diags(M.vec(A.shape[0])) * A.asfptype())
+    add('A * diags(v)', lambda M, A: A.asfptype() * M.diags(M.vec(A.shape[1])))
+    add('diags(v)', lambda M, A: M.diags(M.vec(A.shape[0])))
     add('where', lambda M, A: M.where(A < 0))
     add('inplace data*=2 visible through csr_matrix(A)', lambda M, A: M.inplace(A))
     return O
